@@ -112,11 +112,33 @@ def prev_index(dec) -> int:
     return names.index(name) + 1 if name in names else -1
 
 
-def observe(dec, payload: bytes, own: int, message=None, twin=None, msgdesc: str = "") -> dict:
+_THREAD = []
+
+
+def _on_worker_thread(fn, *a):
+    """The same strictly sequential call, made on another thread (an executor thread of the application): one call at a time, joined."""
+    from concurrent.futures import ThreadPoolExecutor
+    if not _THREAD:
+        _THREAD.append(ThreadPoolExecutor(max_workers=1))
+    return _THREAD[0].submit(fn, *a).result()
+
+
+def observe(dec, payload: bytes, own: int, message=None, twin=None, msgdesc: str = "", how: int = 0) -> dict:
+    """how: 0 plain; 1 the call is made on a worker thread; 2 the payload is handed over as a bytearray (skipped if refused with TypeError)."""
     acc, res = individual(payload)
     pb = prev_index(dec)
     if message is not None:
         o, v, steps = guarded(dec.decode_message, message)
+    elif how == 1:
+        try:
+            v = _on_worker_thread(dec.decode_message_payload, payload)
+            o, steps = "ok", 0
+        except Exception as ex:  # noqa: BLE001
+            o, v, steps = "raised", type(ex).__name__, 0
+    elif how == 2:
+        o, v, steps = guarded(dec.decode_message_payload, bytearray(payload))
+        if o == "raised" and v == "TypeError":          # the signature says bytes: a refusal is not an answer
+            o, v, steps = guarded(dec.decode_message_payload, payload)
     else:
         o, v, steps = guarded(dec.decode_message_payload, payload)
     pair = ""
@@ -160,7 +182,7 @@ def _job_histories(args):
                 desc = as_message if isinstance(as_message, str) else "dlms"
                 calls.append(observe(dec, payload, own, message=message_from(desc, payload), twin=twin, msgdesc=desc))
             else:
-                calls.append(observe(dec, payload, own))
+                calls.append(observe(dec, payload, own, how=(nby % 7 == 3) + 2 * (nby % 7 == 5)))
                 guarded(twin.decode_message_payload, payload)
         out.append({"id": stable_id("auto", [(n, m) for n, _, _, m in h]), "canary": "", "names": [n for n, _, _, _ in h], "calls": calls})
     return out
@@ -624,8 +646,11 @@ def parse_replay(chk: Check, n: int):
         tot += k
         for c, how, detail in bad:
             line = bytes(c["line"]).decode()
-            chk.violation(f"parse-{how}", f"spec->code: parse_data_block({line!r}) {how} {detail}; the specification expects {c['res']}",
-                          {"kind": "parse-gen", "case": c})
+            if how == "hang":       # C15 is about termination; what the parser returns or raises for malformed lines is the implementation-shaped spec's business
+                chk.violation(f"parse-{how}", f"spec->code: parse_data_block({line!r}) does not terminate; the specification expects {c['res']}",
+                              {"kind": "parse-gen", "case": c})
+            else:
+                chk.drift(f"parse_data_block({line!r}) {how} {detail}; the implementation-shaped specification P1Parse expects {c['res']}")
     chk.count("parse-replay", tot)
     chk.cov["behaviours_replayed"] = chk.cov.get("behaviours_replayed", 0) + tot
     chk.cov["traces_validated_against_impl"] += tot
